@@ -164,6 +164,18 @@ def string_docs():
             chunk = use[j:j + 12]
             body = "".join("    " + tmpl.format(i=i, lit=js_lit(s)) + "\n" for i, s in enumerate(chunk))
             yield (f"str/{cname}/{j}", HEAD + body + "}\n", [(f"t{i}", s) for i, s in enumerate(chunk)], cname)
+    # the same for every escape *spelling* (decoded by lib/literals.py), in a binding and in a callback
+    import literals
+    spellings = ["\\b", "\\f", "\\n", "\\r", "\\t", "\\v", "\\0", "\\'", '\\"', "\\\\", "\\x41", "\\x7f", "\\x1b", "\\xe9",
+                 "\\u0041", "\\u00e9", "\\u2028", "\\u{41}", "\\u{1F600}", "x\\by", "\\b\\b"]        # spellings qmluic refuses (surrogate halves, \\/) are C01/C03's
+    pairs = [(sp, literals.js_string_body(sp)) for sp in spellings]
+    pairs = [(sp, v) for sp, v in pairs if v is not None and "\x00" not in v]
+    for cname, tmpl in (("spelling-binding", "VObj {{ id: t{i}; rs: a.s + \"{sp}\" }}"),
+                        ("spelling-callback", "VObj {{ id: t{i}; onFired: rs = '{sp}' }}")):
+        for j in range(0, len(pairs), 12):
+            chunk = pairs[j:j + 12]
+            body = "".join("    " + tmpl.format(i=i, sp=sp) + "\n" for i, (sp, _v) in enumerate(chunk))
+            yield (f"str/{cname}/{j}", HEAD + body + "}\n", [(f"t{i}", v) for i, (_sp, v) in enumerate(chunk)], cname)
 
 
 def js_lit(s):
@@ -367,7 +379,8 @@ def exec_programs(tier, t):
         if not vc.accepted(g, r.get("has_syntax_error")):
             t.violation("strings:document-rejected", {"id": cid, "source": src, "diagnostics": g.get("diagnostics")})
             continue
-        prints = " ".join(f'emit("@PID@", "{o}", {o}->rs().hex());' for o, _s in sinks)
+        fire = " ".join(f"{o}->fired();" for o, _s in sinks) if cname.endswith("callback") else ""
+        prints = fire + " " + " ".join(f'emit("@PID@", "{o}", {o}->rs().hex());' for o, _s in sinks)
         driver = """    auto body = [&]() {
         @SETUP@
         UiSupport::@PID@ sup(root, ui); sup.setup();
@@ -562,6 +575,9 @@ def main(tier, t0):
     tally = vc.merge_tallies(vc.run_sharded(shard_text, {"tier": tier}))
     tally.merge(vc.merge_tallies(vc.run_sharded(unspecified_but_accepted, {"tier": tier})))
     tally.merge(vc.merge_tallies(vc.run_sharded(api_sweep, {"tier": tier})))
+    from checks import c02
+    vc.ensure_cli()
+    c02.shipped_header_is_current(tally)      # the header a user compiles is the file on disk after a regeneration
     kind, te = q.get(timeout=3000)
     pr.join()
     if kind != "ok":
